@@ -489,20 +489,26 @@ impl<'b> InputState<'b> {
             }
             _ => unreachable!(),
         }
+        // a lone `-` stands for -1 until a digit follows
+        let mut minus_only = digit == '-';
         loop {
             wrt.refresh_prompt_and_line(&format!("(arg: {}) ", self.num_args))?;
             let key = rdr.next_key(true)?;
             #[expect(clippy::cast_possible_truncation)]
             match key {
                 E(K::Char(digit @ '0'..='9'), m) if m == M::NONE || m == M::ALT => {
-                    if self.num_args == -1 {
-                        self.num_args *= digit.to_digit(10).unwrap() as i16;
+                    let d = digit.to_digit(10).unwrap() as i16;
+                    if minus_only {
+                        self.num_args = -d;
+                        minus_only = false;
                     } else if self.num_args.abs() < 1000 {
                         // shouldn't ever need more than 4 digits
-                        self.num_args = self
-                            .num_args
-                            .saturating_mul(10)
-                            .saturating_add(digit.to_digit(10).unwrap() as i16);
+                        let shifted = self.num_args.saturating_mul(10);
+                        self.num_args = if self.num_args < 0 {
+                            shifted.saturating_sub(d)
+                        } else {
+                            shifted.saturating_add(d)
+                        };
                     }
                 }
                 E(K::Char('-'), m) if m == M::NONE || m == M::ALT => {}
